@@ -497,6 +497,9 @@ pub fn run(ctx: &Ctx) -> Report {
         for (b, c) in tiny_tables(&mut rng) { cases.push((b, c, "corpus:tiny-sizes-table".into())); }
         cases.extend(long_tables(&mut rng));
         cases.extend(sizes_field_cases(&mut rng));
+        // D30 (known finding): a 174-byte compress-only archive one block of which starts with a large-window brotli
+        // header — found by the splice mutator at the (64,16,128,32,64) constants, kept here as it was found
+        cases.push((unhx(&json!("4d4c410100000002001b7f0000649efdd9fe2a804c768644a4950030443064fad2e251afdfc1061c50c0d88083e30cc3c6d8758b10058460af5f0064580369f1f6e5bec75dca6a6329b5701ebc5dd54649be699fdd683e6686ef06e17f75b0956953030dcf7a9443ebd8f61e706121afd1c783f2e8d79a0c3a6fc5903fe0111b2400008498711f6160ddc0978d88a24d09c82c2abf03020000000000000075000000170000002500000014000000")), Cfg { layers: L_COMP, level: 9, recipients: vec![], reader: 0 }, "corpus:D30-large-window-block".into()));
         for n in [3usize, 2000, 60_000] { cases.push((many_empty_blocks(n), Cfg::plain(), format!("corpus:empty-blocks:{n}"))); }
         {
             // D7: footer length larger than the archive; D1: last chunk shorter than a tag
@@ -628,7 +631,11 @@ pub fn run(ctx: &Ctx) -> Report {
             }
         }
         if r["over"] == true || r["biggest"].as_u64().unwrap_or(0) > (1 << 30) {
-            rep.violation("oracle", "C08/alloc", json!({"what":"allocation"}), &format!("peak {} bytes (largest single request {}) for a {}-byte input; ceiling {}", r["peak"], r["biggest"], b.len(), r["ceiling"]), case.clone());
+            // the brotli decoder's ring buffer is (1 << window bits) + 66 bytes: a request of that form above 2^24 + 66
+            // can only come from a "large window" stream header (window bits 25..30; RFC 7932 stops at 24)
+            let big = r["biggest"].as_u64().unwrap_or(0);
+            let cause = if big > (1 << 24) + 66 && big >= 66 && (big - 66).is_power_of_two() { "brotli-large-window-ring-buffer" } else { "other" };
+            rep.violation("oracle", "C08/alloc", json!({"what":"allocation","cause":cause}), &format!("peak {} bytes (largest single request {}) for a {}-byte input; ceiling {}", r["peak"], r["biggest"], b.len(), r["ceiling"]), case.clone());
         }
         if r["secs"].as_f64().unwrap_or(0.0) > 5.0 {
             rep.violation("oracle", "C08/time", json!({"what":"slow"}), &format!("{} s for a {}-byte input", r["secs"], b.len()), case.clone());
